@@ -400,6 +400,7 @@ def run(ctx) -> list[Inst]:
                          f"stored into it, but {rf.short} restores the field from its members: whatever the object "
                          f"held is lost on save"),
                     file=w.func.module.relpath, line=w.value.lineno, props=props))
+    insts += _absent_defaults(ctx)
     insts += _id_keys(ctx)
     insts += _extensions(ctx)
     insts += _file_layer(ctx)
@@ -1062,6 +1063,29 @@ def _file_layer(ctx) -> list[Inst]:
                 ld = next((k.value for k in c.keywords if k.arg == 'Loader'), c.args[1] if len(c.args) > 1 else None)
                 if ld is None or 'Safe' not in stmt_text(ld):
                     verdict, msg = 'unproven', 'yaml.load without the safe loader'
+                    # a loader class of the package with resolvers / constructors of its own: scalars are typed by other
+                    # rules on the way in than on the way out unless the dumper used for saving got the same ones
+                    if isinstance(ld, ast.Name):
+                        extra = []
+                        for st in ast.walk(f.module.tree):
+                            if isinstance(st, ast.Call) and isinstance(st.func, ast.Attribute) \
+                                    and st.func.attr in ('add_implicit_resolver', 'add_constructor', 'add_path_resolver',
+                                                         'add_multi_constructor') \
+                                    and isinstance(st.func.value, ast.Name) and st.func.value.id == ld.id:
+                                extra.append(st)
+                        dumper_side = [st for st in ast.walk(f.module.tree)
+                                       if isinstance(st, ast.Call) and isinstance(st.func, ast.Attribute)
+                                       and st.func.attr == 'add_implicit_resolver'
+                                       and not (isinstance(st.func.value, ast.Name) and st.func.value.id == ld.id)]
+                        if extra and any(e.func.attr == 'add_implicit_resolver' for e in extra) and not dumper_side:
+                            e0 = extra[0]
+                            verdict = 'violation'
+                            msg = (f"{lib} uses {ld.id}, which resolves plain scalars by an additional rule "
+                                   f"('{stmt_text(e0, 90)}'), while saving still decides what to quote with the stock "
+                                   f"resolver: a STRING that matches the new pattern (an asset name like '1e5') is written "
+                                   f"unquoted and comes back as a number")
+                        elif extra:
+                            msg = f'yaml.load with {ld.id}, which registers {extra[0].func.attr}: not decided'
             insts.append(Inst(RULE, fname, construct, verdict, msg=msg, file=rel, line=c.lineno, props=props))
         # the value handed over / handed back is the very object
         construct = f'(viii) {fname}: content passes through unchanged'
@@ -1257,4 +1281,80 @@ def _templates(ctx) -> list[Inst]:
                     msg=(f"get_association_by_signature builds '{_show(t)}' but the schema entries are "
                          f"named '{_show(tg[0])}'"),
                     file=sig.module.relpath, line=n.lineno, props=props))
+    return insts
+
+
+def _absent_defaults(ctx) -> list[Inst]:
+    """(xiii) an optional key that is absent from the file leaves the field at the value a freshly constructed object
+    has: `x.f = d[k] == 'True' if k in d else <default>` / `d.get(k, <default>)`.  A reader that turns "absent" into
+    something else (d.get(k) == 'True' is False for a missing key while the dataclass default is True) gives files
+    written without that key - older files, hand-written ones - a different object than the one they describe."""
+    prog = ctx.prog
+    insts = []
+    UNK = object()
+
+    def const(e):
+        if isinstance(e, ast.Constant):
+            return e.value
+        if isinstance(e, (ast.List, ast.Dict, ast.Set, ast.Tuple)) and not (getattr(e, 'elts', None) or getattr(e, 'keys', None)):
+            return type(ast.literal_eval(e))()
+        if isinstance(e, ast.Call) and isinstance(e.func, ast.Name) and e.func.id in ('list', 'dict', 'set') and not e.args:
+            return {'list': [], 'dict': {}, 'set': set()}[e.func.id]
+        return UNK
+
+    def absent(e, rec):
+        """value of e when the key it reads is missing from mapping rec (UNK when not of a known shape)"""
+        if isinstance(e, ast.IfExp) and isinstance(e.test, ast.Compare) and len(e.test.ops) == 1 \
+                and isinstance(e.test.ops[0], ast.In) and isinstance(e.test.left, ast.Constant):
+            return const(e.orelse), e.test.left.value
+        if isinstance(e, ast.IfExp) and isinstance(e.test, ast.Compare) and len(e.test.ops) == 1 \
+                and isinstance(e.test.ops[0], ast.NotIn) and isinstance(e.test.left, ast.Constant):
+            return const(e.body), e.test.left.value
+        if isinstance(e, ast.Call) and isinstance(e.func, ast.Attribute) and e.func.attr == 'get' and e.args \
+                and isinstance(e.args[0], ast.Constant):
+            return (const(e.args[1]) if len(e.args) > 1 else None), e.args[0].value
+        if isinstance(e, ast.Compare) and len(e.ops) == 1 and isinstance(e.ops[0], (ast.Eq, ast.NotEq)):
+            l = absent(e.left, rec)
+            if l is not None and l[0] is not UNK and isinstance(e.comparators[0], ast.Constant):
+                v = (l[0] == e.comparators[0].value)
+                return (v if isinstance(e.ops[0], ast.Eq) else not v), l[1]
+        return None
+
+    for cd in CODECS:
+        rf = prog.func(cd['reader'])
+        rel = rf.module.relpath
+        for n in own_nodes(rf.node):
+            if not (isinstance(n, ast.Assign) and len(n.targets) == 1 and isinstance(n.targets[0], ast.Attribute)):
+                continue
+            F = n.targets[0].attr
+            a = absent(n.value, None)
+            if a is None or a[0] is UNK:
+                continue
+            # the default a constructed object carries: a dataclass field of that name with a constant default
+            defaults = []
+            for c in prog.classes.values():
+                fi = c.fields.get(F)
+                if fi is not None and fi.origin == 'dataclass' and fi.default is not None:
+                    dv = const(fi.default)
+                    if dv is UNK and isinstance(fi.default, ast.Call) and 'field' in stmt_text(fi.default.func):
+                        for k in fi.default.keywords:
+                            if k.arg == 'default':
+                                dv = const(k.value)
+                            if k.arg == 'default_factory' and isinstance(k.value, ast.Name) and k.value.id in ('list', 'dict', 'set'):
+                                dv = {'list': [], 'dict': {}, 'set': set()}[k.value.id]
+                    if dv is not UNK:
+                        defaults.append((c.name, dv))
+            if len({repr(d) for _, d in defaults}) != 1:
+                continue
+            cname, dv = defaults[0]
+            construct = f"(xiii) {cd['name']}: a missing '{a[1]}' leaves {cname}.{F} at its default"
+            if a[0] == dv and type(a[0]) is type(dv):
+                insts.append(Inst(RULE, rf.short, construct, 'ok', msg=f'{dv!r}', file=rel, line=n.lineno, props=cd['props']))
+            else:
+                insts.append(Inst(
+                    RULE, rf.short, construct, 'violation',
+                    msg=(f"'{stmt_text(n, 90)}' gives {F} the value {a[0]!r} when the entry has no '{a[1]}', a freshly "
+                         f"constructed {cname} has {dv!r}: a file written without that key (older versions, hand-written "
+                         f"graphs) loads as a different object - e.g. every step unviable before the analysis has run"),
+                    file=rel, line=n.lineno, props=cd['props'] + (('C08',) if F in ('is_viable', 'is_necessary') else ())))
     return insts
